@@ -112,6 +112,24 @@ func (trackerFam) Rand(n int, rng *rand.Rand, emit func(cas any)) error {
 	segs := []string{"json", "api", "apis", "domain", "v1", "v2", "v10", "core", "apps", "go", "type", "func", "map", "1pkg", "9", "foo-bar", "foo_bar",
 		"foobar", "_x", "-", "a", "b", "ab", "x", "yaml.v3", "Ünï", "pkg", "internal", "user", "string", "errors", "fmt", "io", "os", "http", "net"}
 	kinds := []string{"ref", "expose", "typelit", "generic"}
+	// fall-back numbering against std: several spellings that all reduce to the same candidate, plus the std package whose
+	// name is that candidate followed by a digit, in random order
+	stdDigit := [][2]string{{"crypto/sha1", "sha"}, {"crypto/md5", "md"}, {"encoding/asn1", "asn"}, {"hash/crc32", "crc"}, {"crypto/sha256", "sha"}, {"hash/fnv", "fn"}, {"encoding/base64", "base"}, {"crypto/sha512", "sha"}, {"hash/crc64", "crc"}}
+	for i := 0; i < n/4; i++ {
+		sd := stdDigit[rng.IntN(len(stdDigit))]
+		b := sd[1]
+		variants := []string{b, b[:1] + "." + b[1:], b[:1] + "-" + b[1:], "x/" + b, b[:len(b)-1] + "_" + b[len(b)-1:], "x/y/" + b, "y/" + b[:1] + "." + b[1:]}
+		rng.Shuffle(len(variants), func(a, c int) { variants[a], variants[c] = variants[c], variants[a] })
+		k := 2 + rng.IntN(len(variants)-1)
+		paths := append([]string{}, variants[:k]...)
+		pos := rng.IntN(len(paths) + 1)
+		paths = append(paths[:pos], append([]string{sd[0]}, paths[pos:]...)...)
+		steps := []trackerStep{}
+		for _, p := range paths {
+			steps = append(steps, trackerStep{Kind: kinds[rng.IntN(3)], Path: p})
+		}
+		emit(map[string]any{"self": "self.io/me", "steps": steps})
+	}
 	for i := 0; i < n; i++ {
 		np := 2 + rng.IntN(7)
 		paths := []string{}
